@@ -338,7 +338,7 @@ def counter(ctx):
             good = (payload_of(v) is not None and is_call(payload_of(v), "checked_add")) or as_sum(v) is not None
             if lf.kind == "loop" or not good:
                 ctx.fail("R07.6", "read|stray-counter-write|%s" % lf.kind, "read() changes the in-flight counter other than by adding the number of requests it returns (%s path): %s" % (lf.kind, term_s(v)[:120]), fn.loc(e[1]))
-    fe, le = leaves(ctx, CC + "enqueue_response")
+    fe, le = leaves(ctx, CC + "enqueue_response", lower=True)      # `checked_sub(1).map(|n| count = n).ok_or(Underflow)`: the closure is traversed
     m = 0
     for lf in le:
         rk = ret_kind(lf)
